@@ -31,6 +31,8 @@ const PLAIN: [&str; 4] = ["a", "/", ".", "é"];
 /// separator shapes around the expansion constructs (an empty component right after '~/', doubled and
 /// trailing separators next to a variable)
 const RAWX: [&str; 5] = ["a", "/", "~", "$V1", "${V2}"];
+/// literal text that cannot belong to a variable name right after an unbraced reference ("$V1.x", "$V1-a")
+const RAWY: [&str; 5] = ["a", "/", "$V1", ".x", "-"];
 const SMALL: [&str; 5] = ["a", "~", "$V1", "${V2}", "$"];
 const HOMES: [Option<&str>; 4] = [None, Some(""), Some("/h"), Some("/h/x/")];
 const V1S: [Option<&str>; 5] = [None, Some(""), Some("v"), Some("a/b"), Some("/abs")];
@@ -136,13 +138,14 @@ impl Space {
         let f2 = Family::new(&SMALL, full_max + 1, small_max);
         let f3 = Family::raw(&PLAIN, tier.pick(6, 8));
         let f4 = Family::raw(&RAWX, tier.pick(6, 7));
+        let f5 = Family::raw(&RAWY, tier.pick(5, 6));
         let digest_cap = Family::new(&FULL, 0, 4).n;
         let phase1 = Family::new(&FULL, 0, 2).n;
         let bounds = format!(
             "templates: optional leading '/', <=3 components of 1..=3 tokens each; full 10-token alphabet {:?} with <= {} tokens in total ({} templates) plus reduced alphabet {:?} with {}..={} tokens in total ({} templates) plus every string of 1..={} tokens over {:?} ({} templates, returned-unchanged clause on repeated / trailing separators and dot components) plus every string of 1..={} tokens over {:?} ({} templates); environments: HOME {:?} x V1 {:?} x V2 {:?}",
             FULL, full_max, f1.n, SMALL, full_max + 1, small_max, f2.n, tier.pick(6, 8), PLAIN, f3.n, tier.pick(6, 7), RAWX, f4.n, HOMES, V1S, V2S
         );
-        Space { fams: vec![f1, f2, f3, f4], digest_cap, phase1, bounds }
+        Space { fams: vec![f1, f2, f3, f4, f5], digest_cap, phase1, bounds }
     }
     fn n(&self) -> u64 {
         self.fams.iter().map(|f| f.n).sum()
